@@ -45,6 +45,9 @@ type WorkerPool struct {
 
 	// mutex is used to synchronize access to the WorkerPool.
 	mutex syncutils.RWMutex
+
+	// submitMutex makes Submit (running check + enqueueing) atomic with respect to Shutdown.
+	submitMutex syncutils.RWMutex
 }
 
 // New creates a new WorkerPool with the given name and returns it.
@@ -81,6 +84,11 @@ func (w *WorkerPool) Start() *WorkerPool {
 
 // Submit submits a new task to the WorkerPool.
 func (w *WorkerPool) Submit(workerFunc func(), optStackTrace ...string) {
+	// the running check and the enqueueing have to be one step with respect to Shutdown: a task that is counted and
+	// queued after the dispatcher has left would never run and would block every later wait.
+	w.submitMutex.RLock()
+	defer w.submitMutex.RUnlock()
+
 	if !w.IsRunning() {
 		if w.optPanicOnSubmitAfterShutdown {
 			panic(fmt.Sprintf("worker pool '%s' is not running", w.Name))
@@ -144,6 +152,10 @@ func (w *WorkerPool) WorkerCount() int {
 
 // Shutdown shuts down the WorkerPool.
 func (w *WorkerPool) Shutdown() *WorkerPool {
+	// wait for the submissions that already passed the running check (see Submit)
+	w.submitMutex.Lock()
+	defer w.submitMutex.Unlock()
+
 	w.mutex.Lock()
 	defer w.mutex.Unlock()
 
